@@ -11,12 +11,12 @@ STAT_NAMES = ["completed_as_initiator", "response_refused", "completed_as_respon
               "send_under_current", "send_refused_no_or_expired_key", "rekey_after_120s_on_send",
               "rekey_after_165s_on_receive", "initiation_suppressed_by_5s_spacing", "initiation_sent",
               "ticks", "confirmation_with_packets_staged", "forged_under_next_index", "forged_under_current_or_previous_index",
-              "forged_under_index_not_honoured", "replayed_message"]
+              "forged_under_index_not_honoured", "replayed_message", "restart", "restart_with_unconfirmed_next"]
 
 CLAUSES = {1: "index-table-is-not-the-three-slots", 2: "sent-under-wrong-unconfirmed-or-expired-key",
            3: "responder-completion", 4: "initiator-completion-rotation", 5: "slots-changed-without-completion",
            6: "receive-clause", 7: "send-clause", 8: "slots-changed-on-send", 9: "slots-changed-on-initiate",
-           10: "slots-changed-on-tick", 11: "output-on-tick", 12: "forged-message-not-inert", 13: "replayed-message-not-inert"}
+           10: "slots-changed-on-tick", 11: "output-on-tick", 12: "forged-message-not-inert", 13: "replayed-message-not-inert", 14: "keys-or-indices-survive-restart"}
 
 
 class Prop:
@@ -28,7 +28,8 @@ class Prop:
             "initiator and as responder, stale and repeated responses, data under previous/current/next/retired/"
             "never-installed keys with fresh counters, FORGED transport messages (right index of the next/current/previous/"
             "retired key, fresh counter, corrupted tag / ciphertext / garbage / wrong key) and replayed ones, three scenarios "
-            "in which REAL time (0.6 s, socket idle) carries a key from 179.5 s past 180 s before a message arrives, TUN packets, timer-style initiations, time moved with the "
+            "in which REAL time (0.6 s, socket idle) carries a key from 179.5 s past 180 s before a message arrives, interface "
+            "Down/Up (Peer.Stop+Start) at every slot configuration followed by probes under the keys just dropped, TUN packets, timer-style initiations, time moved with the "
             "Verif shift hooks to 119/121/164/166/179/181 s of key age and across the 5 s handshake spacing; final "
             "sweep probing every session ever derived; after every event: datagrams emitted (which session opens "
             "them), initiation/response, TUN write, the three slots, the index table, the pending handshake index; "
@@ -40,7 +41,7 @@ class Prop:
                    "key ages are moved by the VerifShift hooks in whole seconds; scenarios last < 0.9 s of real time, longer ones are discarded and counted; "
                    "the three idle scenarios shift by 179.5 s and wait in real time, discarded if an age comes within 30 ms of a whole second",
                    "message-count limits (RejectAfterMessages/RekeyAfterMessages), the 20 ms initiation flood limit (neutralised by a hook), cookies and the real-time timers are outside the slice",
-                   "the unbounded theorem 'holdsb accepts every model trace' is a statement only; proved by evaluation to depth 5 (thorough: 6)"]
+                   "the unbounded theorem 'holdsb accepts every model trace' is a statement only; proved by evaluation to depth 4 (thorough: 6 / 5)"]
     trusted_extra = ["Base/Ints.v: primitive Uint63 literals carry the traces in generated case files only",
                      "add-only hook file /repo/device/verif_c07.go (SendHandshakeInitiation as the timers call it, latch/lastSentHandshake accessor, two time shifts)",
                      "harness/ref: the harness's own WireGuard implementation decides which session opens a datagram"]
@@ -89,7 +90,7 @@ class Prop:
             "Print sweep.\n"
             "Definition bad : list (N * N * N) := Eval vm_compute in\n"
             "  (match sweep with (Some _, Some _) => [] | _ => [(0, 2, 999999)] end).\nPrint bad.\n"
-            "Definition st : list N := repeat 0 20.\nPrint st.\n")
+            "Definition st : list N := repeat 0 22.\nPrint st.\n")
         return p
 
     def failures(self, outputs, files, cases):
@@ -105,10 +106,10 @@ class Prop:
         return res
 
     def stats(self, outputs):
-        tot = [0] * 20
+        tot = [0] * 22
         for o in outputs.values():
             v = vlib.parse_n_list(vlib.coq_value(o, "st"))
-            if len(v) == 20:
+            if len(v) == 22:
                 tot = [a + b for a, b in zip(tot, v)]
         return dict(zip(STAT_NAMES, tot))
 
